@@ -181,6 +181,24 @@ func main() {
 		return gk.GetIdentityRecordIdByAddressKey(c, probe, "probe") == 0
 	}()
 
+	// does MsgSetNetworkProperties refuse to declare a key unique while duplicates exist? (probed)
+	msgGuard := func() bool {
+		c, _ := base.CacheContext()
+		p1, p2, adm := sdk.AccAddress("c16_probe_1_________"), sdk.AccAddress("c16_probe_2_________"), sdk.AccAddress("c16_probe_admin_____")
+		for _, a := range []sdk.AccAddress{p1, p2} {
+			if err := gk.RegisterIdentityRecords(c, a, []govtypes.IdentityInfoEntry{{Key: "probekey", Info: "same"}}); err != nil {
+				panic(err)
+			}
+		}
+		if err := gk.AddWhitelistPermission(c, govtypes.NewDefaultActor(adm), govtypes.PermChangeTxFee); err != nil {
+			panic(err)
+		}
+		props := *gk.GetNetworkProperties(c)
+		props.UniqueIdentityKeys += ",probekey"
+		_, err := govMS.SetNetworkProperties(sdk.WrapSDKContext(c), &govtypes.MsgSetNetworkProperties{NetworkProperties: &props, Proposer: adm})
+		return err != nil
+	}()
+
 	// ---------------------------------------------------------------- observation
 	type snapT struct {
 		coq  string
@@ -681,7 +699,7 @@ func main() {
 		if i == len(cfgs)-1 {
 			sep = ""
 		}
-		pre.WriteString(fmt.Sprintf("  mkCfg %s %s %s %s %s %s %s%s\n", hx.ZU(c.minTip), zlist(c.pc), zlist(c.pv), zlist(c.pn), zlist([]int{0, 1, 2, 3}), zlist(c.se), hx.B(delFix), sep))
+		pre.WriteString(fmt.Sprintf("  mkCfg %s %s %s %s %s %s %s %s%s\n", hx.ZU(c.minTip), zlist(c.pc), zlist(c.pv), zlist(c.pn), zlist([]int{0, 1, 2, 3}), zlist(c.se), hx.B(delFix), hx.B(msgGuard), sep))
 	}
 	pre.WriteString("].\n")
 	out.WriteFile("pre.v", pre.String())
@@ -692,6 +710,6 @@ func main() {
 	for _, c := range js {
 		nops += len(c.Ops)
 	}
-	out.WriteJSON("dist.json", map[string]interface{}{"seed": seed, "histories": len(js), "operations": nops, "by_kind_and_result": dist, "history_sizes": sizes, "delete_by_id_removes_index_entry": delFix})
+	out.WriteJSON("dist.json", map[string]interface{}{"seed": seed, "histories": len(js), "operations": nops, "by_kind_and_result": dist, "history_sizes": sizes, "delete_by_id_removes_index_entry": delFix, "whole_record_write_guards_unique_keys": msgGuard})
 	fmt.Fprintf(os.Stderr, "c16: %d histories, %d operations\n", len(js), nops)
 }
